@@ -44,6 +44,36 @@ CHECKS = {
     "C15": ("contract around every is_coupled_protonation_state_probability call (determinants and pKa restored "
             "exactly, swaps counted), analysis on/off comparison in one process, symmetry and star clauses on live "
             "groups", "runtime contract + on/off two-run monitor", "4.C15", "-d excluded from on/off comparison"),
+    "C03": ("history checker: every call of a multi-call history in one process (single by path/stream, main with "
+            "several files, options, cwd changes, heap junk) must equal the same call alone in a fresh interpreter "
+            "(other PYTHONHASHSEED / PYTHONMALLOC); schedule-style injection of 16-aligned pseudo object addresses "
+            "into Group/Iterative.__hash__ must not change any result",
+            "offline history checker + address-layout injection", "4.C03", "log warnings and the order of internal partner lists are not results"),
+    "C04": ("two-run metamorphic monitor under the 24 lattice rotations x integer milli-A translations: heavy-atom "
+            "quantities exact (tie guard), keep-protons runs equal to 1e-7, program-built hydrogens equal within "
+            "rounding and pKa differences decomposed by re-running with the mapped-back hydrogens",
+            "metamorphic two-run monitor with exact lattice motions", "4.C04",
+            "known finding rotor-hydrogen-frame-dependent; hetero groups tier 1 only"),
+    "C05": ("four-run metamorphic monitor: each part alone vs inside both unions at exact minimum distances from "
+            "25.001 A to the limits of the coordinate field", "metamorphic multi-run monitor", "4.C05",
+            "single-conformation parts"),
+    "C08": ("reference-model monitor: AVR vs the harness's own arithmetic mean over the conformations that report a "
+            "group; top-up oracle from the harness's reading of MODEL/alt-loc records vs the atom lists of every "
+            "conformation; identical-models and single-conformation relations",
+            "reference-model monitor over boundary observations", "4.C08",
+            "groups identified across conformations by (chain, number, icode, atom, type)"),
+    "C16": ("contracts on radial_volume_desolvation, backbone_reorganization, hydrogen_bond_energy, coulomb_energy and "
+            "the weight functions (sign by charge, bounds) on every call, boundary monitor on every determinant of "
+            "every conformation, over workloads containing every ligand group type and every ion of propka.cfg",
+            "runtime contracts + boundary invariant monitor", "4.C16", "bounds per conformation (AVR merges determinants)"),
+    "C17": ("contract on every Protonate.add_proton call (one parent, tabulated X-H length within rounding, siblings "
+            ">= 0.5 A), completeness of regular residues decided from the perceived bond graph, orientation clause "
+            "by mapping hydrogens between lattice poses", "runtime contract + metamorphic monitor", "4.C17",
+            "known finding rotor-hydrogen-frame-dependent"),
+    "C18": ("invariants after every InteractionMatrix.add / PairwiseMatrix.add and on every get_value (symmetry), "
+            "generated parameter files read by the real parser vs the generating table, squared cut-off consistency, "
+            "exhaustive pairs of creatable group types under the shipped file",
+            "runtime invariants + reference-model monitor", "4.C18", "creatable types read from the live Group classes"),
     "C19": ("enumeration of the encoding order (quick: widths 1-3 complete, 4-5 boundaries+samples; thorough: all "
             "87.5M width-5 values) against a reference encoder, malformed strings against a reference grammar, "
             "contract on every decode call of pipeline runs, serial-rewrite metamorphic runs",
